@@ -171,11 +171,25 @@ Definition mmd_fields (prefix : string) : list (string * ckind) :=
    ((prefix ++ "._statistical_kwargs['kernel']")%string, ModuleFunction);
    ((prefix ++ "._kernel")%string, ModuleFunction)].
 
+(** How BaseECDDConfig keeps its control-limit polynomial (the only place where the 35 classes
+    differ between revisions of the code as far as pickling goes):
+    - [StoresLambda]: [self.control_limit_func = self.average_run_length_map[arl]], a lambda
+      written in the class body (the code as found, F25);
+    - [StoresKey]: only the key [arl] is stored, the function is looked up at call time;
+    - [StoresModuleFunction]: the polynomials are module-level functions.
+    The harness determines which revision it is looking at from the real object graph. *)
+Inductive revision := StoresLambda | StoresKey | StoresModuleFunction.
+
 (** Every attribute path (from an instance built with the default arguments, after any
     history) whose value is a callable or an opaque library object, as the code is. *)
-Definition callable_fields (c : cls) : list (string * ckind) :=
+Definition callable_fields (r : revision) (c : cls) : list (string * ckind) :=
   match c with
-  | C_ECDDWT => [("._config.control_limit_func"%string, ClassBodyLambda)]
+  | C_ECDDWT =>
+      match r with
+      | StoresLambda => [("._config.control_limit_func"%string, ClassBodyLambda)]
+      | StoresKey => []
+      | StoresModuleFunction => [("._config.control_limit_func"%string, ModuleFunction)]
+      end
   | C_STEPD => [("._distribution"%string, LibraryObject)]
   | C_ADWIN | C_BOCD | C_CUSUM | C_DDM | C_EDDM | C_GeometricMovingAverage
   | C_HDDMA | C_HDDMW | C_KSWIN | C_PageHinkley | C_RDDM => []
@@ -189,12 +203,12 @@ Definition callable_fields (c : cls) : list (string * ckind) :=
   | C_HistoryConceptDrift | C_PermutationTestDistanceBased | C_ResetStatisticalTest => []
   end.
 
-Definition picklable_cls (c : cls) : bool :=
-  forallb (fun f => importable (snd f)) (callable_fields c).
+Definition picklable_cls (r : revision) (c : cls) : bool :=
+  forallb (fun f => importable (snd f)) (callable_fields r c).
 
 (** An object graph holding instances of the classes [cs] (a detector with its callbacks,
     or a callback with its detector: the back-references make both ends reach everything). *)
-Definition picklable_graph (cs : list cls) : bool := forallb picklable_cls cs.
+Definition picklable_graph (r : revision) (cs : list cls) : bool := forallb (picklable_cls r) cs.
 
 (** which callback classes each detector family accepts (check_callbacks) *)
 Definition is_concept_drift (c : cls) : bool :=
